@@ -191,5 +191,7 @@ def check(ctx):
     # destroy is analysed from every state of the handle invariant: every other call must leave the handle inside it (C14.L2),
     # in particular a failed or interrupted wait must leave it 'running' so that destroy still stops and reaps the child
     R.c14_closure(ctx, prog)
+    from . import c08 as c08_
+    c08_.widened_products_rule(ctx, prog, "C15.D6")      # the stored deadline is computed in 64 bits (it decides when destroy may signal)
     from .. import cxxrules
     cxxrules.c15_deleter(ctx)
